@@ -242,14 +242,13 @@ func (vc *VC) callCommon(st *State, v *ssa.Call, cc *ssa.CallCommon, args []Term
 		}
 	}
 	// unknown function value: ghost call counter, unconstrained result
-	calls := vc.get(st, "G_$calls", "(Array Int Int)")
+	cv := callsVar(cc.Value.Type())
+	calls := vc.get(st, cv, "(Array Int Int)")
 	n := sx("+", sx("select", calls, fv.S), "1")
-	vc.set(st, "G_$calls", "(Array Int Int)", sx("store", calls, fv.S, n))
+	vc.setAt(st, cv, "(Array Int Int)", fv.S, n)
 	if len(args) > 1 {
 		a0 := args[1]
-		an := "G_$arg0_" + mangle(a0.Sort)
-		as := "(Array Int " + a0.Sort + ")"
-		vc.set(st, an, as, sx("store", vc.get(st, an, as), fv.S, a0.S))
+		vc.setAt(st, arg0Var(cc.Value.Type()), "(Array Int "+a0.Sort+")", fv.S, a0.S)
 	}
 	res := vc.freshResults(sig, "r")
 	if len(res) == 1 {
@@ -325,8 +324,27 @@ func (vc *VC) applyContractEnv(st *State, v *ssa.Call, spec *FuncSpec, names []s
 	} else {
 		vc.usedSpecs[spec.Name] = true
 	}
+	if spec.PureConst {
+		rt := sig.Results().At(0).Type()
+		res := vc.pureConstApp(spec, args, rt)
+		n := vc.fresh("r", res.Sort)
+		vc.assume(sx("=", n, res.S))
+		vc.assume(vc.ss().typeInv(rt, n, 0))
+		vc.setResults(v, []Term{{S: n, Sort: res.Sort, T: rt}})
+		if len(spec.clauses("ensures")) == 0 && len(spec.clauses("requires")) == 0 {
+			return
+		}
+	}
 	pre := st.clone(vc)
 	env := &Env{vc: vc, st: pre, old: pre, vars: map[string]Term{}, pkg: pkg}
+	// the callee's own frame: one level below the caller's
+	if true {
+		fr := vc.fresh("fr", "Int")
+		vc.declare("frame_self", "Int")
+		vc.assume(sx("=", sx("up", fr, "1"), "frame_self"))
+		vc.P.prelude.useFile(vc, "frames")
+		env.vars["$frame"] = Term{S: fr, Sort: "Int"}
+	}
 	for i, n := range names {
 		if i < len(args) {
 			env.vars[n] = args[i]
@@ -426,8 +444,17 @@ func (vc *VC) modifiesTargets(spec *FuncSpec, env *Env) (targets []modTarget, al
 			case item == "everything":
 				all = true
 			case strings.HasPrefix(item, "all(") && strings.HasSuffix(item, ")"):
-				// all(T.f.g): whole field array
-				targets = append(targets, vc.allFieldTargets(env, item[4:len(item)-1])...)
+				// all(T.f.g): whole field array; all(T): every field of every T object
+				path := item[4 : len(item)-1]
+				if !strings.Contains(path, ".") || strings.Count(path, ".") == 1 && vc.P.findPkgByName(strings.Split(path, ".")[0], env.pkg) != nil {
+					t, _ := env.resolveType(path)
+					if t == nil {
+						panic(execErr("unknown type in modifies " + item))
+					}
+					targets = append(targets, vc.structTargets(t, "")...)
+				} else {
+					targets = append(targets, vc.allFieldTargets(env, path)...)
+				}
 			case strings.HasPrefix(item, "elems(") && strings.HasSuffix(item, ")"):
 				t, _ := env.resolveType(item[6 : len(item)-1])
 				n, s := vc.elemVar(t)
@@ -451,6 +478,36 @@ func (vc *VC) modifiesTargets(spec *FuncSpec, env *Env) (targets []modTarget, al
 				}
 				hn, hs, vn, vs := vc.mapVars(mt)
 				targets = append(targets, modTarget{hn, hs, m.S}, modTarget{vn, vs, m.S})
+			case strings.HasPrefix(item, "*"):
+				// *p: every field of the object p points to
+				e, err := parseExpr(item[1:])
+				if err != nil {
+					panic(execErr(err.Error()))
+				}
+				pt, err := env.translate(e)
+				if err != nil {
+					panic(execErr(err.Error()))
+				}
+				st := derefT(pt.T)
+				if _, ok := isStruct(st); !ok {
+					n, s := vc.cellVar(st)
+					targets = append(targets, modTarget{n, s, pt.S})
+				} else {
+					targets = append(targets, vc.structTargets(st, pt.S)...)
+				}
+			case strings.HasPrefix(item, "calls(") && strings.HasSuffix(item, ")"):
+				e, err := parseExpr(item[6 : len(item)-1])
+				if err != nil {
+					panic(execErr(err.Error()))
+				}
+				f, err := env.translate(e)
+				if err != nil {
+					panic(execErr(err.Error()))
+				}
+				targets = append(targets, modTarget{callsVar(f.T), "(Array Int Int)", f.S})
+				if sig, ok := types.Unalias(f.T).Underlying().(*types.Signature); ok && sig.Params().Len() > 0 {
+					targets = append(targets, modTarget{arg0Var(f.T), "(Array Int " + vc.ss().sortOf(sig.Params().At(0).Type()) + ")", f.S})
+				}
 			default:
 				e, err := parseExpr(item)
 				if err != nil {
@@ -481,7 +538,7 @@ func (vc *VC) allFieldTargets(env *Env, path string) []modTarget {
 			last := i == len(parts[1:])-1 && fi == idx[len(idx)-1]
 			ft := s.Field(fi).Type()
 			if last {
-				if _, isS := isStruct(ft); isS {
+				if subObject(ft) {
 					out = append(out, vc.structTargets(ft, "")...)
 				} else {
 					n, srt, _ := vc.fieldVar(derefT(cur), fi)
@@ -507,7 +564,7 @@ func (vc *VC) structTargets(t types.Type, ref string) []modTarget {
 	var out []modTarget
 	for i := 0; i < s.NumFields(); i++ {
 		ft := s.Field(i).Type()
-		if _, isS := isStruct(ft); isS {
+		if subObject(ft) {
 			sub := ""
 			if ref != "" {
 				sub = sx(vc.subFun(t, i), ref)
@@ -531,7 +588,7 @@ func (vc *VC) exprTargets(env *Env, e Expr, text string) []modTarget {
 		}
 		if o := vc.P.logPkg.Types.Scope().Lookup(x.Name); o != nil {
 			if v, ok := o.(*types.Var); ok {
-				if _, isS := isStruct(v.Type()); isS {
+				if subObject(v.Type()) {
 					return vc.structTargets(v.Type(), vc.globalRef(v))
 				}
 				return []modTarget{{vc.globalName(v), vc.ss().sortOf(v.Type()), ""}}
@@ -560,7 +617,7 @@ func (vc *VC) exprTargets(env *Env, e Expr, text string) []modTarget {
 			if _, bound := env.lookup(id.Name); !bound {
 				if p := vc.P.findPkgByName(id.Name, env.pkg); p != nil {
 					if o, ok := p.Scope().Lookup(x.Name).(*types.Var); ok {
-						if _, isS := isStruct(o.Type()); isS {
+						if subObject(o.Type()) {
 							return vc.structTargets(o.Type(), vc.globalRef(o))
 						}
 						return []modTarget{{vc.globalName(o), vc.ss().sortOf(o.Type()), ""}}
@@ -599,7 +656,7 @@ func (vc *VC) exprTargets(env *Env, e Expr, text string) []modTarget {
 			s, _ := isStruct(st)
 			ft := s.Field(fi).Type()
 			if i == len(path)-1 {
-				if _, isS := isStruct(ft); isS {
+				if subObject(ft) {
 					return vc.structTargets(ft, sx(vc.subFun(st, fi), cur.S))
 				}
 				n, srt, _ := vc.fieldVar(st, fi)
